@@ -1,7 +1,7 @@
 """C17 — task lifecycle typestate, pumps joined, hash / write pairing (structural clauses)."""
 import re
 
-from ..core import CheckError, Site, op_const, op_place
+from ..core import CheckError, Site, op_const, op_place, switches
 from ..prov import reads_locals, sources
 
 EMIT = r'^ripd::tasks::TaskEmitter::emit$'
@@ -116,10 +116,94 @@ def explore(f, init, syms):
     return finals, errors, len(seen)
 
 
+def cancel_correlation(f, syms):
+    """ToolTaskCancelled only after ToolTaskCancelRequested: explored over (block, reason cell in
+    {None, Some, ?}, requested?). The reason cell is the Option local whose Some-test guards the
+    Cancelled emission. returns (cell, errors, states) or None when the task body has no C site."""
+    csites = [x for (sym, x) in syms.values() if sym == 'C']
+    if not csites:
+        return None
+
+    def tested_cell(on):
+        """(cell local, some_target_key) when a switch operand is a Some/None test of an Option local."""
+        o = f.origin(on)
+        if o[0] == 'rv' and o[1]['k'] == 'discr':
+            l = o[1]['pl']['l']
+            if o[1]['pl'].get('p'):
+                return None
+            d = f.single_def(l)
+            if d and d[2] == 'call' and re.search(r'Option::<T>::(as_deref|as_ref|as_mut|as_deref_mut|clone)$|Clone>::clone$', (d[3]['f'].get('r') or d[3]['f'].get('p') or '')):
+                r = f.root_local(d[3]['a'][0])
+                return (r, 'discr') if r is not None else None
+            return (l, 'discr')
+        return None
+    tests = {}
+    for (bi, on, ts, els) in switches(f):
+        tc = tested_cell(on)
+        if tc and f.lty(tc[0]).startswith('core::option::Option<'):
+            some_t = ts.get('1')
+            none_t = ts.get('0', els if '1' in ts else None)
+            if some_t is None and '0' in ts:
+                some_t = els
+            tests[bi] = (tc[0], some_t, none_t)
+    for c in f.calls(r'core::option::Option::<T>::(is_some|is_none)$'):
+        sw = f.switch_on_call(c)
+        r = f.root_local(c.args[0])
+        if sw is None or r is None:
+            continue
+        bb, ts, els, neg = sw
+        true_t, false_t = (ts.get('0'), els) if neg else (els, ts.get('0'))
+        tests[bb] = (r, true_t, false_t) if c.name == 'is_some' else (r, false_t, true_t)
+    # the cell: an Option local whose Some edge dominates every Cancelled emission
+    cand = [(bi, r) for bi, (r, some_t, none_t) in tests.items() if some_t is not None and all(f.edge_dom(bi, some_t, c.bb) for c in csites)]
+    # the innermost guard: the test every other guarding test dominates (earlier let-else guards of the body also dominate the emission)
+    inner = [(bi, r) for (bi, r) in cand if all(bj == bi or f.dom(bj, bi) for (bj, _) in cand)]
+    cells = {r for (_, r) in inner}
+    if len(cells) != 1:
+        return ('?', [(csites[0], 'the Cancelled emission is not guarded by a Some-test of one reason cell (%d candidates)' % len(cells))], 0)
+    cell = next(iter(cells))
+    defs = {}
+    for (bi, si, kind, payload, ln) in f.defs(cell):
+        isnone = kind == 'rv' and payload['k'] == 'agg' and payload.get('variant') == 'None'
+        defs[bi] = 'N' if isnone else '?'
+    errors = []
+    seen = set()
+    work = [(0, 'N', False)]
+    while work:
+        b, rs, q = work.pop()
+        if (b, rs, q) in seen:
+            continue
+        seen.add((b, rs, q))
+        if b in syms:
+            sym, site = syms[b]
+            if sym == 'Q':
+                q = True
+            if sym == 'C' and not q:
+                errors.append((site, 'ToolTaskCancelled can be emitted on a path that never emitted ToolTaskCancelRequested'))
+        t = f.blocks[b]['t']
+        nrs = defs.get(b, rs) if t['k'] != 'call' else rs
+        succs = list(f.succs(b))
+        if b in tests and tests[b][0] == cell:
+            _, some_t, none_t = tests[b]
+            for sx in succs:
+                if sx == some_t and rs != 'N':
+                    work.append((sx, 'S', q))
+                elif sx == none_t and rs != 'S':
+                    work.append((sx, 'N', q))
+                elif sx not in (some_t, none_t):
+                    work.append((sx, rs, q))
+            continue
+        for sx in succs:
+            # a call that defines the cell takes effect on its return edge
+            work.append((sx, defs.get(b, rs) if t['k'] == 'call' else nrs, q))
+    return (cell, errors, len(seen))
+
+
 def run(ctx):
     P = ctx.prog
     ctx.not_decided = 'byte equality of stored output, preview / page boundaries (value level; read_artifact_range yields U+FFFD on both sides of a page boundary inside a multi-byte character — seen by reading, not decidable by a shape rule).'
     ctx.rule('C17.1', 'task lifecycle typestate over run_task, run_pipes_task, run_pty_task: every path from entry to return spells S (T | R (O|Q|C)* T) — spawn first, running at most once and only after spawn, live frames only while running, exactly one terminal status, nothing after it. Explored exhaustively over (block, state).')
+    ctx.rule('C17.5', 'cancelled only after requested: in run_pipes_task / run_pty_task the ToolTaskCancelled frame is reachable only on paths that emitted ToolTaskCancelRequested — explored over (block, reason cell in {None, Some, unknown}, requested?), the reason cell being the Option local whose Some-test guards the Cancelled emission; every non-None assignment of the cell makes it unknown.')
     ctx.rule('C17.2', 'pumps joined: in the task bodies every JoinHandle of a spawned pump is polled to completion before any terminal status is emitted.')
     ctx.rule('C17.3', 'hash / write pairing: in shell::capture_stream and write_artifact_tail every write_all to the spill file is followed on its success edge by Digest::update over the same bytes and by the stored-bytes advance; the artifact id is hex(hasher.finalize()).')
 
@@ -144,6 +228,13 @@ def run(ctx):
             ctx.ob('C17.1', f, 'lifecycle:' + what.split(' (')[0].replace(' ', '-'), False, '%s (%s)' % (what, site.name), line=site.line)
         ctx.ob('C17.1', f, 'ends-terminal', finals <= {3}, 'states at return: %s (3 = one terminal status emitted); %d (block,state) pairs explored, %d lifecycle sites: %s' % (
             sorted(finals), n, len(syms), ''.join(sorted(x[0] if x[0] != 'RUN' else 'B' for x in syms.values()))))
+        cc = cancel_correlation(f, syms)
+        if cc is not None:
+            cell, cerrs, nst = cc
+            total_states += nst
+            ctx.ob('C17.5', f, 'cancelled-only-after-requested', not cerrs,
+                   ('reason cell `%s`: every path to the Cancelled emission passed a CancelRequested emission (%d (block, cell, requested) states)' % (f.lname(cell), nst)) if not cerrs else
+                   cerrs[0][1] + (' (reason cell `%s` is set without the request frame)' % f.lname(cell) if cell != '?' else ''), line=cerrs[0][0].line if cerrs else f.line)
         # the pump closures only emit live frames
     for g in P.find_fns(r'^ripd::tasks::(pipes|pty)::pump_\w+::\{closure#0\}$|^ripd::tasks::pty::\w*pump\w*'):
         for s in g.calls(EMIT):
@@ -183,11 +274,20 @@ def run(ctx):
         for w in ws:
             n += 1
             wroots = reads_locals(f, w.args[1])
+            # "the same bytes": the written slice and the hashed slice are cut from the same named values
+            # (buffer AND bounds) — hashing the whole chunk while storing a capped prefix names the artifact
+            # by bytes it does not hold
+            def named(ls):
+                return {f.lname(x) for x in ls if f.locals[x].get('n')}
             ok = False
+            why = 'NOT followed by Digest::update over the same bytes'
             for u in ups:
                 if f.can_reach(w.bb, u.bb) and (reads_locals(f, u.args[1]) & wroots):
-                    ok = True
-            ctx.ob('C17.3', f, 'write-then-hash', ok, 'spill write is %s by Digest::update over the same bytes' % ('followed' if ok else 'NOT followed'), line=w.line)
+                    if named(reads_locals(f, u.args[1])) == named(wroots):
+                        ok = True
+                    else:
+                        why = 'followed by Digest::update over DIFFERENT bytes (written slice is cut from %s, hashed slice from %s): the artifact id is not the hash of the stored bytes' % (sorted(named(wroots)), sorted(named(reads_locals(f, u.args[1]))))
+            ctx.ob('C17.3', f, 'write-then-hash', ok, 'spill write is %s' % ('followed by Digest::update over the same bytes' if ok else why), line=w.line)
     ctx.floor('C17.3', 'spill writes', n, 2)
     fin = P.body('rip_tools::builtins::shell::finalize_artifact')
     ctx.touch(fin)
